@@ -49,7 +49,14 @@ def tail_call(rng, fn_next, depth):
     if depth <= 0:
         return call
     inner = lambda: tail_call(rng, fn_next, depth - 1)  # noqa
-    k = rng.below(14)
+    k = rng.below(20)
+    if k >= 14:
+        # one arm of a conditional ends the loop with a non-call expression (never taken: i >= 0 throughout), the other continues:
+        # what precedes a tail context must not take its tail-ness away
+        dead = rng.choice(["(set! g5 i)", "'lit", "acc", "(+ i 1)", "(begin (vector 1) (set! g5 acc))", "(set! loc5 i)", "(g5f i)", "(if (odd? i) (set! g5 1) (set! g5 2))"])
+        form = rng.choice(["(if (< i 0) %(d)s %(t)s)", "(if (>= i 0) %(t)s %(d)s)", "(cond ((< i 0) %(d)s) (else %(t)s))", "(cond ((< i 0) 'x %(d)s) ((< i -5) %(d)s) (else %(t)s))",
+                           "(case i ((-1) %(d)s) (else %(t)s))", "(if (< i 0) %(d)s (if (< i -1) %(d)s %(t)s))", "(do ((j 0 (+ j 1))) ((= j 1) (if (< i 0) %(d)s %(t)s)) %(d)s)"])
+        return "(let ((loc5 0)) %s)" % (form % {"d": dead, "t": inner()})
     if k == 0:
         return "(if (even? i) %s %s)" % (inner(), inner())
     if k == 1:
@@ -96,6 +103,7 @@ def gen_tail_program(rng, n_iter, probe_mask):
             defs.append("(define %s (case-lambda ((i) (%s i 0)) ((i acc) (if (= i 0) acc (begin %s %s)))))" % (nm, nm, probe, body))
         else:
             defs.append("(define %s (lambda (i acc . opt) (if (= i 0) acc (begin %s %s))))" % (nm, probe, body))
+    defs.insert(0, "(define g5 0) (define (g5f x) x)")
     return "\n".join(defs), "(%s %d 0)" % (names[0], n_iter)
 
 
